@@ -194,3 +194,39 @@ SPECS.append({
  "manifest": {"text": "Relational bounded symbolic model checking: the query and an arbitrary case re-spelling share one symbolic byte vector (mask bits), compared at every consumer of the query and end to end.",
               "note": "Trusted: executor + intrinsics, z3, go/ssa. Bounds: ASCII, <=5 query bytes, 7-command database."},
 })
+
+SPECS.append({
+ "property_id": "C02", "level": "model_checking",
+ "explanation": "The Go runtime's map iteration order is the quantified variable: after verifMapOrder(k) the executor forks every `range` over a map with 2..k entries over all k! orders. Each harness runs the function twice in one path (self-composition, independent orders) - repeated calls, independently built databases / TF-IDF models, suggestions - and requires position-wise identical commands and bit-identical scores. Counterexamples are replayed natively by repeating the call until the real runtime exhibits two outcomes.",
+ "assumptions": ["maps with more than k entries (k = 3 or 4) are ranged in insertion order (counted in evidence as map_ranges_in_insertion_order)", "'separate processes' is covered through the argument that map order and time are the only cross-process sources of variation in this code; time does not enter ranking"],
+ "stubs": ["map-order forks in the executor's map model", "regexp stub, sort swappers (sort.Stable / SliceStable algorithms run from SSA)"],
+ "outside_the_claim": ["maps larger than the fork bound", "databases beyond 3-5 entries"],
+ "trusted_base": TB,
+ "harnesses": [
+  H("C02", DB, "Ties3", "both", ["compared", "nonempty"], "3 commands (2 identical), symbolic query word, limit 1..2, maps <=3 entries in all orders", "repeated SearchUniversal"),
+  H("C02", DB, "Ties3NLP", "both", ["compared", "nonempty"], "same with UseNLP", "repeated SearchUniversal (NLP)"),
+  H("C02", DB, "Ties5", "thorough", ["compared", "nonempty"], "5 commands, maps <=4 entries", "repeated SearchUniversal"),
+  H("C02", DB, "Reload", "both", ["compared"], "two independently built databases, NLP on", "re-loading the same content"),
+  H("C02", DB, "Suggestions", "both", ["compared"], "3-word candidate set, all orders", "did-you-mean reproducibility"),
+  H("C02", "internal/nlp", "TFIDF", "thorough", ["compared"], "3 documents, three-term float sums, maps <=3 entries in all orders", "norms / similarities bit-identical", max_paths=400000),
+ ],
+ "manifest": {"text": "Self-composed bounded model checking with the runtime's map iteration order as the explored nondeterminism (all permutations for maps up to k entries); outputs of two runs must coincide position by position and bit by bit.",
+              "note": "Trusted: executor's map model, z3, go/ssa. Bounds: maps <= 3-4 entries are permuted; larger ones use insertion order (reported)."},
+})
+
+SPECS.append({
+ "property_id": "C05", "level": "model_checking",
+ "explanation": "Histories through the real caching (and monitoring) wrapper, the real SearchCache / LRU and the real engine: after every search the answer is compared with an uncached SearchUniversal of the current database at that moment. Delta harness: two requests whose options differ in exactly one field (each field in turn, flags symbolic) and whose queries are case / padding variants. History harnesses: search, arbitrary operation (invalidate, disable, enable, expiry sweep with a symbolic clock advance, database replacement), search.",
+ "assumptions": ["cache key: json.Marshal is replaced by an injective canonical rendering of the concrete key struct, sha256 is computed natively, fmt.Sprintf is a deterministic function of its operands", "queries from {aa, AA, ' aa', 'aa cc', zz, ab}; option values from small sets"],
+ "stubs": ["json.Marshal (canonical rendering), sha256 (native), fmt.Sprintf (deterministic opaque)", "symbolic monotonic clock", "sync primitives as sequential state machines"],
+ "outside_the_claim": ["histories longer than 4 steps", "hash collisions of SHA-256"],
+ "trusted_base": TB,
+ "harnesses": [
+  H("C05", DB, "Delta", "both", ["searched", "done"], "2 requests; 6 symbolic flags x 2 limits; 10 one-field deltas; 4x4 query variants", "requests that differ in anything that changes the answer never share an entry", synctest=True),
+  H("C05", DB, "PairsMonitored", "both", ["searched", "done"], "2 requests through the monitoring wrapper; 6 option sets x 5 queries each", "monitored wrapper's own projection", synctest=True),
+  H("C05", DB, "Hist3", "thorough", ["searched", "done"], "search, one of 6 operations, search", "no entry outlives invalidation / replacement; disabled cache is bypassed", synctest=True),
+  H("C05", DB, "Hist4", "thorough", ["searched", "done"], "4 steps", "same", synctest=True),
+ ],
+ "manifest": {"text": "Bounded model checking of histories through the real caching layer against the real uncached engine as oracle at every step.",
+              "note": "Trusted: executor, z3, injective key rendering (stub for json.Marshal), native sha256. Bounds: <=4 steps, small query / option sets."},
+})
